@@ -11,7 +11,9 @@ control flow from `pkg/proxy/downstream.go`, `upstream.go`, `retrystate.go`, `pk
 load `ar aq`, and **every** schedule `l : List Label` — an arbitrary interleaving of worker steps (one phase each), upstream
 responses (complete, or only the head of a streamed response whose body / trailers follow later), the end of a streamed
 body, upstream resets with any reason (also after the response head was forwarded), pool failures, per-try and global
-timer callbacks, downstream resets, connection closes and asynchronous `TerminateStream` calls on the parked worker.  Everything follows from `inv_run` (Lemmas/Downstream.lean) by induction on the schedule.
+timer callbacks (also the global timer callback landing inside `setupRetry`: `gtInSetup`), downstream resets, connection closes and
+asynchronous `TerminateStream` calls while the worker is parked or asleep in `doRetry`'s back-off — every label at every point, the
+back-off sleep included.  Everything follows from `inv_run` (Lemmas/Downstream.lean) by induction on the schedule.
 -/
 namespace MosnVerif.Props.C03
 open MosnVerif.Model.Downstream MosnVerif.Gen.ProxyPhase MosnVerif.Gen.ProxyReason
@@ -330,7 +332,7 @@ theorem terminate_claims (c : Cfg) (ar aq : Nat) (l : List Label) (code : Nat) (
   simp only [reach, run, List.foldl_append, List.foldl_cons, List.foldl_nil, step]
   simp only [reach, run] at hpk hnr hcl hurr
   rw [terminateL_eq]
-  simp [hpk, hnr, hcl, hurr, terminateAcc]
+  simp [asleep, hpk, hnr, hcl, hurr, terminateAcc]
 
 /-- **global_timer_spans_retries**: the global timer armed when the request was completely sent is neither stopped nor
 re-armed by a retry.  (1) `setupRetry` (accepting a retry) stops the per-try timer only — regenerated from its body.
@@ -455,67 +457,193 @@ example : ((fun (s : S) => (s.gtGen, s.global, s.perTry, s.trace))
 example : ((fun (s : S) => (s.gtGen, s.global))
     (reach { hasData := true } 0 0 ([.poolFail .connfail] ++ List.replicate 12 .work))) = (1, true) := by decide
 
-/-! ## proxy9: `terminate during the back-off` (labels of `Model/DownstreamBackoff.lean`) -/
+/-! ## proxy9 → proxy10: the back-off sleep of `doRetry` is a state of the machine
+
+The worker asleep in `doRetry`'s back-off is the state `backoff` (phase `Retry`, not yet woken).  Every label may fire there —
+the asynchronous `TerminateStream` (`terminate` / `terminateStale` / `terminateRaced`: delivered whenever the worker is
+`asleep`), a late frame of the given-up attempt (`lateResp`), the global timer callback (`globalFire`; `gtInSetup` when it had
+landed inside `setupRetry`), the client's departure (`downReset`, `connClose`), resets / answers of dead streams, `hostsGone`,
+`poolFail` — and `work` in that state is the wake-up: the REGENERATED `doRetry` (`Gen.ProxyBackoff.doRetry`) with what it
+re-checks after the sleep.  So `sender_once`, `clean_once`, `outcome_total`, `worker_returns_iff_cleaned`, … above and C10's
+ledger theorems quantify over schedules with all these interleavings (`inv_run` is proved for the whole label type).  The
+theorems below say what the wake-up does. -/
 
 /-- **terminate_in_backoff_accepted_iff**: on every schedule that leaves the worker in `doRetry`'s back-off sleep, an
-asynchronous `TerminateStream(code)` delivered there (regenerated step program `Gen.ProxyTerminate`) is accepted exactly when
-no response headers are stored (the attempt was given up for a reset / per-try timeout, not for its status) and the response
-slot is free (the global timer has not fired meanwhile); the call itself writes nothing to the trace, and an accepted call
-leaves the header-only local reply `code` pending with the worker still in the Retry phase. -/
+asynchronous `TerminateStream(code)` delivered there (label `terminate`: regenerated step program `Gen.ProxyTerminate`) is
+accepted exactly when no response headers are stored (the attempt was given up for a reset / per-try timeout, not for its
+status) and the response slot is free (neither the global timer nor an earlier call took it meanwhile); the call itself
+writes nothing to the trace, the worker stays asleep, and an accepted call leaves the header-only local reply `code` pending. -/
 theorem terminate_in_backoff_accepted_iff (c : Cfg) (ar aq : Nat) (l : List Label) (code : Nat)
-    (hb : backoff (reach c ar aq l) = true) :
-    (terminateB c (reach c ar aq l) code).trace = (reach c ar aq l).trace ∧
-    ((terminateB c (reach c ar aq l) code).direct = true ↔
+    (hb : backoff (reach c ar aq l) = true) (hnd : (reach c ar aq l).direct = false) :
+    (reach c ar aq (l ++ [.terminate code])).trace = (reach c ar aq l).trace ∧
+    backoff (reach c ar aq (l ++ [.terminate code])) = true ∧
+    ((reach c ar aq (l ++ [.terminate code])).direct = true ↔
       ((reach c ar aq l).resp.isSome = false ∧ (reach c ar aq l).urr = false)) ∧
-    ((terminateB c (reach c ar aq l) code).direct = true →
-      (terminateB c (reach c ar aq l) code).respCode = code ∧
-      (terminateB c (reach c ar aq l) code).resp = some ⟨false, false⟩) := by
-  have h := terminateB_spec c ar aq (reach c ar aq l) code (inv_run c ar aq l) hb
-  exact ⟨h.1, h.2.2.2.2.2.2.2.1, fun hd => ⟨(h.2.2.2.2.2.2.2.2 hd).2.1, (h.2.2.2.2.2.2.2.2 hd).2.2⟩⟩
+    ((reach c ar aq (l ++ [.terminate code])).direct = true →
+      (reach c ar aq (l ++ [.terminate code])).respCode = code ∧
+      (reach c ar aq (l ++ [.terminate code])).resp = some ⟨false, false⟩) := by
+  have h := terminate_backoff_spec c ar aq (reach c ar aq l) code (inv_run c ar aq l) hb
+  simp only [reach, run, List.foldl_append, List.foldl_cons, List.foldl_nil, step]
+  simp only [reach, run] at h hnd
+  refine ⟨h.1, h.2.2.1, ?_, fun hd => ⟨(h.2.2.2.2.2.2 hnd hd).2.1, (h.2.2.2.2.2.2 hnd hd).2.2⟩⟩
+  rw [h.2.2.2.2.2.1]
+  simp [hnd]
 
-/-- **terminate_in_backoff_not_forwarded** (C14: a denied request is never forwarded; C03: one reply): on every schedule
-that leaves the worker in the back-off, after an ACCEPTED `TerminateStream` there (client still connected) the Retry pass
-(`workB`: `doRetry` with the regenerated guard `retrySkipsOnDirect`, then `processError`) creates NO upstream attempt — no
-`NewStream`, admitted or refused, no new client stream — and hands the pending local reply to the response pass (the worker
-leaves the Retry phase).  Needs `Gen.ProxyPhase.retrySkipsOnDirect = true`: without the test in `doRetry` the proof does
-not build (negation witness below). -/
-theorem terminate_in_backoff_not_forwarded (c : Cfg) (ar aq : Nat) (l : List Label) (code : Nat)
-    (hb : backoff (reach c ar aq l) = true)
-    (hacc : (terminateB c (reach c ar aq l) code).direct = true)
-    (hcli : (reach c ar aq l).downReset = false) :
-    (workB c (terminateB c (reach c ar aq l) code)).streams.length = (reach c ar aq l).streams.length ∧
-    (workB c (terminateB c (reach c ar aq l) code)).trace.filter attemptEv = (reach c ar aq l).trace.filter attemptEv ∧
-    (workB c (terminateB c (reach c ar aq l) code)).phase ≠ .Retry := by
-  have h := terminateB_spec c ar aq (reach c ar aq l) code (inv_run c ar aq l) hb
-  obtain ⟨htr, hst, hph, hrun, hcl, hdr, _, _, himp⟩ := h
-  have hw := workB_direct_no_attempt c (terminateB c (reach c ar aq l) code) hrun hph hacc hcl (himp hacc).1 (hdr.trans hcli)
-  exact ⟨by rw [hw.1, hst], by rw [hw.2.1, htr], hw.2.2⟩
+/-- **terminate_in_backoff_not_forwarded** (C14: a denied request is never forwarded; C03: one reply): on every schedule that
+leaves the worker in the back-off with a local reply pending — an asynchronous `TerminateStream` was ACCEPTED there, whatever
+else landed during the rest of the sleep (the client's departure, the connection close, late frames, the global timer …) —
+the wake-up (`work`: the regenerated `doRetry` returns at its test `if s.directResponse`, then `processError`) creates NO
+upstream attempt — no `NewStream`, admitted or refused, no new client stream — and the worker leaves the Retry phase (the
+pending reply goes to the response pass; or, the client gone, the stream is cleaned).  No hypothesis on `downstreamReset`. -/
+theorem terminate_in_backoff_not_forwarded (c : Cfg) (ar aq : Nat) (l : List Label)
+    (hb : backoff (reach c ar aq l) = true) (hacc : (reach c ar aq l).direct = true) :
+    (reach c ar aq (l ++ [.work])).streams.length = (reach c ar aq l).streams.length ∧
+    (reach c ar aq (l ++ [.work])).trace.filter attemptEv = (reach c ar aq l).trace.filter attemptEv ∧
+    ((reach c ar aq (l ++ [.work])).running = false ∨ (reach c ar aq (l ++ [.work])).phase ≠ .Retry) := by
+  have hi := inv_run c ar aq l
+  obtain ⟨hcl, _, _, _, _, _, _, _, _, _, _, hdf⟩ := backoff_facts c ar aq _ hi hb
+  have := wake_direct_no_attempt c (reach c ar aq l) hb hacc hcl (hdf hacc).2.1
+  simpa [reach, run, List.foldl_append, step, att] using this
 
-/-- the machine's own runs are untouched by the extension: `workB = work` on every reachable state -/
-theorem backoff_extension_conservative (c : Cfg) (ar aq : Nat) (l : List Label) :
-    workB c (reach c ar aq l) = work c (reach c ar aq l) := workB_eq_work c ar aq _ (inv_run c ar aq l)
+/-- **backoff_wake_no_attempt** (sensitivity: `doRetry` must re-check after its sleep): on every schedule that leaves the worker
+in the back-off, when meanwhile the client left (`downstreamReset`), an upstream reset was raised (the global timer fired
+during the sleep), a local reply became pending, or the expiry of the global timeout was recorded (its callback landed inside
+`setupRetry`), the wake-up creates no upstream attempt.  Rests on the regenerated guards: `upstreamRequest.appendHeaders`
+starts with `processDone()` = `upstreamProcessDone || downstreamReset == 1 || upstreamReset == 1`, `doRetry` tests
+`directResponse` and `globalTimeoutExpired` after the sleep. -/
+theorem backoff_wake_no_attempt (c : Cfg) (ar aq : Nat) (l : List Label) (hb : backoff (reach c ar aq l) = true)
+    (h : (reach c ar aq l).downReset = true ∨ (reach c ar aq l).upReset = true ∨ (reach c ar aq l).direct = true ∨
+      (reach c ar aq l).globalExpired = true) :
+    (reach c ar aq (l ++ [.work])).trace.filter attemptEv = (reach c ar aq l).trace.filter attemptEv := by
+  have hi := inv_run c ar aq l
+  obtain ⟨_, _, hup, _⟩ := backoff_facts c ar aq _ hi hb
+  have := wake_no_attempt c (reach c ar aq l) hb (by
+    rcases h with h | h | h | h
+    · exact Or.inr (Or.inr (Or.inl h))
+    · exact Or.inr (Or.inr (Or.inr h))
+    · exact Or.inl h
+    · exact Or.inr (Or.inl ⟨h, by rw [hup]; rfl⟩))
+  simpa [reach, run, List.foldl_append, step, att] using this
 
-/-- non-vacuity: attempt 0 reset (connection failed, retried), the worker sleeps, TerminateStream(418) lands, the worker runs
-on: ONE attempt, the client gets the 418, everything is given back -/
+/-- the regenerated guards the two theorems above rest on, as the Go source has them -/
+theorem backoff_guards_regenerated :
+    Gen.ProxyPhase.retrySkipsOnDirect = true ∧ Gen.ProxyBackoff.appendHeadersChecksDone = true ∧
+    Gen.ProxyBackoff.appendDataChecksDone = true ∧ Gen.ProxyBackoff.appendTrailersChecksDone = true ∧
+    (∀ pd dr ur, Gen.ProxyBackoff.processDone pd dr ur = (pd || dr || ur)) := by
+  refine ⟨by decide, by decide, by decide, by decide, ?_⟩
+  intro pd dr ur; cases pd <;> cases dr <;> cases ur <;> rfl
+
+/-- the machine's `processDone` is the regenerated one -/
+theorem processDone_regenerated (s : S) :
+    processDone s = Gen.ProxyBackoff.processDone s.procDone s.downReset s.upReset := by
+  simp [processDone, Gen.ProxyBackoff.processDone]
+
+/-- non-vacuity: attempt 0 reset (connection failed, retried), the worker sleeps, TerminateStream(418) lands, the worker wakes:
+ONE attempt, the client gets the 418, everything is given back -/
 example : ((fun (s : S) => (s.trace, s.cleaned, s.upActive, s.retries))
-    (settleB { retryOn := true, numRetries := 1, maxRetries := 1 } 8
-      (terminateB { retryOn := true, numRetries := 1, maxRetries := 1 }
-        (reach { retryOn := true, numRetries := 1, maxRetries := 1 } 0 0
-          (List.replicate 12 .work ++ [.upReset 0 .StreamConnectionFailed, .work])) 418))) =
+    (reach { retryOn := true, numRetries := 1, maxRetries := 1 } 0 0
+      (List.replicate 12 .work ++ [.upReset 0 .StreamConnectionFailed, .work, .terminate 418] ++ List.replicate 4 .work))) =
     ([.un 0, .uh 0 true, .dh 418 true, .log 418 0x2000], true, 0, 0) := by decide
-/-- negation witness: `doRetry` WITHOUT the test (the machine's plain `work`) sends the denied request upstream again —
-attempt 1 is created after the accepted TerminateStream — and nobody resets it: the exchange ends with the stream live -/
+/-- … the same with the client leaving during the rest of the sleep: no attempt, no reply, the stream is cleaned -/
+example : ((fun (s : S) => (s.trace, s.cleaned, s.upActive, s.retries))
+    (reach { retryOn := true, numRetries := 1, maxRetries := 1 } 0 0
+      (List.replicate 12 .work ++ [.upReset 0 .StreamConnectionFailed, .work, .terminate 418,
+        .downReset .StreamConnectionTermination] ++ List.replicate 2 .work))) =
+    ([.un 0, .uh 0 true, .log 504 0x2000], true, 0, 0) := by decide
+/-- the client leaves during the back-off (no terminate): the wake-up creates no attempt 1 -/
 example : ((fun (s : S) => (s.trace, s.cleaned, s.upActive))
-    (settle { retryOn := true, numRetries := 1 } 8
-      (terminateB { retryOn := true, numRetries := 1 }
-        (reach { retryOn := true, numRetries := 1 } 0 0
-          (List.replicate 12 .work ++ [.upReset 0 .StreamConnectionFailed, .work])) 418))) =
-    ([.un 0, .uh 0 true, .un 1, .uh 1 true, .dh 418 true, .log 418 0x2000], true, 1) := by decide
-/-- a retry because of the STATUS keeps the stale response headers: the call is refused, the retry goes on -/
-example : (terminateB { retryOn := true, numRetries := 1 }
     (reach { retryOn := true, numRetries := 1 } 0 0
-      (List.replicate 12 .work ++ [.upResp 0 503 false false] ++ List.replicate 3 .work)) 418).direct = false ∧
+      (List.replicate 12 .work ++ [.upReset 0 .StreamConnectionFailed, .work, .downReset .StreamConnectionTermination, .work]))) =
+    ([.un 0, .uh 0 true, .log 504 0], true, 0) := by decide
+/-- a retry because of the STATUS keeps the stale response headers: the call is refused, the retry goes on -/
+example : (reach { retryOn := true, numRetries := 1 } 0 0
+      (List.replicate 12 .work ++ [.upResp 0 503 false false] ++ List.replicate 3 .work ++ [.terminate 418])).direct = false ∧
     backoff (reach { retryOn := true, numRetries := 1 } 0 0
       (List.replicate 12 .work ++ [.upResp 0 503 false false] ++ List.replicate 3 .work)) = true := by decide
+
+/-! ## proxy10: the global timer callback inside `setupRetry`; a streamed response reset before its head is forwarded -/
+
+/-- **global_timeout_in_retry_setup**: the global timer callback that lands INSIDE `setupRetry` — after the test of
+`globalTimeoutExpired`, with the given-up upstream request marked, before (`afterCas = false`) or after (`true`) the response
+slot is swung back: label `gtInSetup` — has its reset dropped by the marked request, but records the expiry; on every schedule
+the wake-up that follows creates NO further attempt (`doRetry` re-checks the expiry: fix fac205b27), and — nothing else
+happening — three more worker steps answer the request with the timeout reply and clean the stream: the timeout is not lost. -/
+theorem global_timeout_in_retry_setup (c : Cfg) (ar aq : Nat) (l : List Label) (b : Bool)
+    (hb : backoff (reach c ar aq l) = true) (hg : (reach c ar aq l).global = true) :
+    (reach c ar aq (l ++ [.gtInSetup b])).globalExpired = true ∧ (reach c ar aq (l ++ [.gtInSetup b])).global = false ∧
+    backoff (reach c ar aq (l ++ [.gtInSetup b])) = true ∧
+    (reach c ar aq (l ++ [.gtInSetup b, .work])).trace.filter attemptEv = (reach c ar aq l).trace.filter attemptEv := by
+  have e : reach c ar aq (l ++ [.gtInSetup b]) =
+      { reach c ar aq l with global := false, globalExpired := true, urr := (reach c ar aq l).urr || b } := by
+    simp only [reach, run, List.foldl_append, List.foldl_cons, List.foldl_nil, step, gtInSetup]
+    simp only [reach, run] at hb hg
+    have hrec : globalCallbackRecordsExpiry = true := by decide
+    simp [hb, hg, hrec]
+  have hb2 : backoff (reach c ar aq (l ++ [.gtInSetup b])) = true := by rw [e]; simpa [backoff] using hb
+  refine ⟨by rw [e], by rw [e], hb2, ?_⟩
+  have h2 := backoff_wake_no_attempt c ar aq (l ++ [.gtInSetup b]) hb2 (Or.inr (Or.inr (Or.inr (by rw [e]))))
+  have e2 : l ++ [Label.gtInSetup b, .work] = (l ++ [.gtInSetup b]) ++ [.work] := by simp
+  rw [e2, h2, e]
+
+/-- non-vacuity: attempt 0 reset and retried, the global timer fires inside `setupRetry` after the swing; the upstream stays
+silent: the client gets the 504 (on the code before fac205b27 attempt 1 was created here and nothing ever answered) -/
+example : ((fun (s : S) => (s.trace, s.cleaned, s.upActive))
+    (reach { retryOn := true, numRetries := 1 } 0 0
+      (List.replicate 12 .work ++ [.upReset 0 .StreamConnectionFailed, .work, .gtInSetup true] ++ List.replicate 4 .work))) =
+    ([.un 0, .uh 0 true, .dh 504 true, .log 504 4], true, 0) := by decide
+/-- … before the swing (retriable status): the same -/
+example : ((fun (s : S) => (s.trace, s.cleaned))
+    (reach { retryOn := true, numRetries := 1 } 0 0
+      (List.replicate 12 .work ++ [.upResp 0 503 false false] ++ List.replicate 3 .work ++ [.gtInSetup false] ++
+        List.replicate 4 .work))) =
+    ([.un 0, .uh 0 true, .dh 504 true, .log 504 4], true) := by decide
+
+/-- **streamed_reset_any_phase**: the reset of the open client stream of a streamed response (head accepted, body in flight)
+is a label of the machine in EVERY state — also while the worker has not yet consumed the wake-up of the head, runs the
+sender filters, or is about to forward the head: on every schedule, for every live, counted, listened client stream, the label
+raises `upstreamReset` (unless one is pending), destroys the stream, and writes nothing downstream.  With `sender_once` /
+`outcome_total` / `ledger_exact` quantifying over such schedules: before the head is forwarded the reset is answered or
+retried like any reset, after it the client stream is reset (`partial_reset_completes`). -/
+theorem streamed_reset_any_phase (c : Cfg) (ar aq : Nat) (l : List Label) (k : Nat) (r : Reason) (st : Stream)
+    (hk : (reach c ar aq l).streams[k]? = some st)
+    (hst : st.real = true ∧ st.live = true ∧ st.counted = true ∧ st.listening = true) :
+    (reach c ar aq (l ++ [.upReset k r])).upReset = true ∧
+    (reach c ar aq (l ++ [.upReset k r])).trace = (reach c ar aq l).trace ∧
+    liveCount (reach c ar aq (l ++ [.upReset k r])).streams = 0 := by
+  have hi := inv_run c ar aq l
+  have hi2 := inv_run c ar aq (l ++ [.upReset k r])
+  have hlc : streamLiveCounted (reach c ar aq l) k = true := by simp [streamLiveCounted, hk, hst.2.1, hst.2.2.1]
+  have hpos := liveCounted_pos _ k hlc
+  obtain ⟨hcl, _, _⟩ := live_ctx c ar aq _ hi hpos
+  have hsr := (hi.k7 hcl).1
+  have hur : (reach c ar aq l).upReset = false := by
+    cases hu : (reach c ar aq l).upReset with
+    | false => rfl
+    | true => have h0 : liveCount (reach c ar aq l).streams = 0 := hi.k23 hcl (Or.inl hu); omega
+  have e : (reach c ar aq (l ++ [.upReset k r])) = destroyStream c (upOnResetStream (reach c ar aq l) r) k := by
+    simp only [reach, run, List.foldl_append, List.foldl_cons, List.foldl_nil, step]
+    simp only [reach, run] at hk
+    simp [upResetL, hk, hst.1, hst.2.1, hst.2.2.1, hst.2.2.2]
+  have hup : (reach c ar aq (l ++ [.upReset k r])).upReset = true := by
+    rw [e]; simp only [reach, run] at hsr hur ⊢; simp [upOnResetStream, hsr, hur]
+  refine ⟨hup, by rw [e]; simp [upOnResetStream], ?_⟩
+  have hcl2 : (reach c ar aq (l ++ [.upReset k r])).cleaned = false := by
+    rw [e]; simp only [reach, run] at hcl ⊢; simp [upOnResetStream, hcl]
+  exact hi2.k23 hcl2 (Or.inl hup)
+
+/-- non-vacuity: the head of a streamed 200 is accepted, the worker has NOT yet run (wake-up pending in WaitNotify), the stream
+is reset with a retriable reason and budget left: retried — nothing had gone downstream; the retried attempt answers -/
+example : ((fun (s : S) => (s.trace, s.cleaned, s.upActive))
+    (reach { retryOn := true, numRetries := 1 } 0 0 (List.replicate 12 .work ++
+      [.upRespS 0 200 true false, .upReset 0 .StreamConnectionTermination, .work, .work, .work, .upResp 1 200 false false] ++
+      List.replicate 4 .work))) =
+    ([.un 0, .uh 0 true, .un 1, .uh 1 true, .dh 200 true, .log 200 0], true, 0) := by decide
+/-- … at UpRecvHeader (the head about to be forwarded), no retry policy: the error reply of the reason, one reply -/
+example : ((fun (s : S) => (s.phase, s.trace))
+    (reach {} 0 0 (List.replicate 12 .work ++ [.upRespS 0 200 true false, .work, .work]))) = (.UpRecvHeader, [.un 0, .uh 0 true]) ∧
+    ((fun (s : S) => (s.trace, s.cleaned, s.upActive))
+    (reach {} 0 0 (List.replicate 12 .work ++ [.upRespS 0 200 true false, .work, .work, .upReset 0 .StreamRemoteReset] ++
+      List.replicate 4 .work))) =
+    ([.un 0, .uh 0 true, .dh 502 true, .log 502 16], true, 0) := by decide
 
 end MosnVerif.Props.C03
